@@ -23,6 +23,7 @@ import (
 	"path/filepath"
 	"runtime/pprof"
 	"sort"
+	"strconv"
 	"strings"
 	"unicode/utf8"
 
@@ -581,14 +582,11 @@ func init() {
 }
 
 func runParse(args []string) int {
-	var part, corpus string
-	var maxFull, maxMid, maxSmall int
+	var part, corpus, genSpec string
 	c := commonFlags("parse", args, func(fs *flag.FlagSet) {
 		fs.StringVar(&part, "part", "gen", "gen | files | rand")
 		fs.StringVar(&corpus, "corpus", "/repo/tests", "directory of *.zy files")
-		fs.IntVar(&maxFull, "full", 0, "max length over the 20-class alphabet, all runs (0: tier default)")
-		fs.IntVar(&maxMid, "mid", 0, "max length over the 14-class alphabet, light runs")
-		fs.IntVar(&maxSmall, "small", 0, "max length over the 9-class alphabet, light runs")
+		fs.StringVar(&genSpec, "gen", "", "generation specs alphabet,length,full|light,rate,k,n;... (default: quick set)")
 	})
 	w := newWriter(c.out)
 	defer w.close()
@@ -603,7 +601,7 @@ func runParse(args []string) int {
 	}
 	switch part {
 	case "gen":
-		parseGen(c, w, maxFull, maxMid, maxSmall)
+		parseGen(c, w, genSpec)
 	case "files":
 		parseFiles(c, w, corpus)
 	case "rand":
@@ -614,64 +612,87 @@ func runParse(args []string) int {
 	return 0
 }
 
-func parseGen(c *common, w *ndWriter, maxFull, maxMid, maxSmall int) {
-	// quick:    all texts of <= 3 classes over the 20-class alphabet (all runs);
-	//           all structured texts of 4 classes over the 9-class alphabet (light runs)
-	// thorough: <= 4 over 20 classes (all runs); 5 over 14 classes, 1 in 6; 5 over 9 classes;
-	//           6 over 9 classes, 1 in 6 (light runs)
-	midRate, smallAll := 1, 99
-	if maxFull == 0 {
-		maxFull, maxMid, maxSmall = 3, 3, 4
-		if c.thorough() {
-			maxFull, maxMid, maxSmall = 4, 5, 6
-			midRate, smallAll = 6, 5
-		}
+// A generation spec is "alphabet,length,runs,rate,k,n": all structured texts of exactly
+// `length` classes over the alphabet (base = 20 classes, mid = 14, small = 9; base texts are
+// not pruned), with runs = full | light, keeping 1 in `rate` (seeded), slice k of n.
+type parseGenSpec struct {
+	alpha  string
+	length int
+	full   bool
+	rate   int
+	k, n   int
+}
+
+func parseGenSpecs(c *common, arg string) []parseGenSpec {
+	if arg == "" {
+		// quick default; the thorough tier is driven by lib/props/C13.py in batches
+		return []parseGenSpec{{"base", 1, true, 1, 0, 1}, {"base", 2, true, 1, 0, 1}, {"base", 3, true, 1, 0, 1},
+			{"small", 4, false, 1, 0, 1}}
 	}
+	var out []parseGenSpec
+	for _, one := range strings.Split(arg, ";") {
+		f := strings.Split(one, ",")
+		if len(f) != 6 {
+			fatal("bad -gen spec %q", one)
+		}
+		atoi := func(x string) int {
+			v, err := strconv.Atoi(x)
+			if err != nil {
+				fatal("bad -gen spec %q", one)
+			}
+			return v
+		}
+		out = append(out, parseGenSpec{f[0], atoi(f[1]), f[2] == "full", atoi(f[3]), atoi(f[4]), atoi(f[5])})
+	}
+	return out
+}
+
+func parseGen(c *common, w *ndWriter, arg string) {
 	idx := 0
-	emit := func(tag string, cls []string, full bool, rate int) {
-		idx++
-		if !c.mine(idx) {
-			return
+	for _, sp := range parseGenSpecs(c, arg) {
+		var alpha []string
+		tag := "g"
+		switch sp.alpha {
+		case "base":
+			alpha = parseBase
+		case "mid":
+			alpha, tag = parseMid, "m"
+		case "small":
+			alpha, tag = parseSmall, "s"
+		default:
+			fatal("unknown alphabet %q", sp.alpha)
 		}
-		if rate > 1 && !hashSel(c.seed, idx, 1, rate) {
-			return
-		}
-		variant := 0
-		if idx%4 == 3 {
-			variant = 1 + idx%3
-		}
-		text := parseSpell(cls, variant)
-		b := newParseCase(fmt.Sprintf("%s%d:%s", tag, variant, strings.Join(cls, "")), text)
-		var runs []parseRun
-		if full {
-			runs = parseFullRuns(len(cls))
-		} else {
-			runs = parseLightRuns(len(cls), idx)
-		}
-		for _, r := range runs {
-			b.exec(r)
-		}
-		w.write(b.finish(true))
-	}
-	for n := 1; n <= maxFull; n++ {
-		parseForTexts(parseBase, n, func(cls []string) { emit("g", cls, true, 1) })
-	}
-	for n := maxFull + 1; n <= maxMid; n++ {
-		parseForTexts(parseMid, n, func(cls []string) {
-			if parseHasStructure(cls) {
-				emit("m", cls, false, midRate)
+		sp := sp
+		parseForTexts(alpha, sp.length, func(cls []string) {
+			if sp.alpha != "base" && !parseHasStructure(cls) {
+				return
 			}
-		})
-	}
-	for n := maxFull + 1; n <= maxSmall; n++ {
-		rate := 1
-		if n > smallAll {
-			rate = 6
-		}
-		parseForTexts(parseSmall, n, func(cls []string) {
-			if parseHasStructure(cls) {
-				emit("s", cls, false, rate)
+			idx++
+			if sp.n > 1 && idx%sp.n != sp.k {
+				return
 			}
+			if !c.mine(idx / max(sp.n, 1)) {
+				return
+			}
+			if sp.rate > 1 && !hashSel(c.seed, idx, 1, sp.rate) {
+				return
+			}
+			variant := 0
+			if idx%4 == 3 {
+				variant = 1 + idx%3
+			}
+			text := parseSpell(cls, variant)
+			b := newParseCase(fmt.Sprintf("%s%d:%s", tag, variant, strings.Join(cls, "")), text)
+			var runs []parseRun
+			if sp.full {
+				runs = parseFullRuns(len(cls))
+			} else {
+				runs = parseLightRuns(len(cls), idx)
+			}
+			for _, r := range runs {
+				b.exec(r)
+			}
+			w.write(b.finish(true))
 		})
 	}
 }
@@ -731,7 +752,7 @@ func parseRand(c *common, w *ndWriter, dir string) {
 	if n == 0 {
 		n = 1500
 		if c.thorough() {
-			n = 40000
+			n = 20000
 		}
 	}
 	files := parseCorpusFiles(dir)
